@@ -413,6 +413,11 @@ func (cg *CallGraph) callsIn(fn *ssa.Function, match func(s *Site) bool) []*Site
 	return out
 }
 
+func siteCall(s *Site) *ssa.Call {
+	c, _ := s.Instr.(*ssa.Call)
+	return c
+}
+
 func siteValue(s *Site) ssa.Value {
 	if c, ok := s.Instr.(*ssa.Call); ok {
 		return c
